@@ -336,6 +336,46 @@ def check_fin(ctx):
       wrong.append((hex(v), r))
   ctx.check(not wrong, "FIN-channel", "SccCode.get_channel|channel-1 / channel-2 / field-2 values", ctx.where(base.module, gc.node),
             "value == first code -> channel 1, == second -> channel 2, otherwise (field 2) neither", f"SccCode.get_channel is wrong: {wrong}")
+  # get_channel through each code class (dynamic dispatch: SccControlCode overrides get_values):
+  # first value -> channel 1, second -> channel 2, field-2 values -> neither
+  ce2 = ConstEval(ix)
+  for kind, q in ENUMS.items():
+    c = ix.cls(q)
+    init = ix.lookup_method(c, "__init__")
+    gch = ix.lookup_method(c, "get_channel")
+    wrong = []
+    for name, vexpr in ix.enum_members(c):
+      vals = ce2.ev(c.module, vexpr, c)
+      env = {}
+      # simulate the member's __init__ chain (assignments of parameters to self fields)
+      def run_init(fi, args):
+        e = dict(zip(fi.params[1:], args))
+        for st in fi.node.body:
+          if isinstance(st, ast.Assign) and isinstance(st.targets[0], ast.Attribute) and isinstance(st.value, ast.Name) and st.value.id in e:
+            env[f"self.{st.targets[0].attr}"] = e[st.value.id]
+          elif isinstance(st, ast.Expr) and isinstance(st.value, ast.Call) and "super().__init__" in unparse(st.value.func):
+            sup = None
+            for b in ix.mro(fi.cls)[1:]:
+              if "__init__" in b.methods:
+                sup = b.methods["__init__"]
+                break
+            if sup is not None:
+              run_init(sup, [e.get(unparse(a)) for a in st.value.args])
+      run_init(init, list(vals))
+      ints = ints_of(vals)
+      for i, v in enumerate(ints):
+        try:
+          r = fe.call(gch, dict(env, **{gch.params[1]: v}), self_cls=c)
+        except NotConst as ex:
+          raise AnalysisError(f"{c.name}.get_channel leaves the evaluable subset: {ex}")
+        evals += 1
+        want = "CHANNEL_1" if v == ints[0] else ("CHANNEL_2" if v == ints[1] else None)
+        got = r.name if isinstance(r, EnumMember) else r
+        if got != want:
+          wrong.append((name, hex(v), got, want))
+    ctx.check(not wrong, "FIN-channel", f"{c.name}.get_channel|every value of every member", ctx.where(c.module, c.node),
+              "channel 1 / channel 2 for the field-1 values, neither for field-2 values",
+              f"{c.name}.get_channel attributes values to the wrong channel: " + "; ".join(f"{n} {v}: got {g}, want {w}" for n, v, g, w in wrong[:4]))
   # mid-row style helpers
   mr = ix.cls(ENUMS["midrow"])
   for meth in ("get_color", "get_font_style", "get_text_decoration"):
@@ -460,6 +500,45 @@ def check_disassembly(ctx):
             "unknown code words are rendered as {??}", "the disassembler has no rendering for unknown code words")
 
 
+def check_disassembly_colors(ctx, tables):
+  """DSP-disasm-colors: every colour a code table can produce has a mnemonic branch in
+  get_color_disassembly (compared there through NamedColors.<name>.value.components[:-1])."""
+  import re
+  ix = ctx.ix
+  ce = ConstEval(ix)
+  f = ix.func("ttconv.scc.disassembly:get_color_disassembly")
+  ctx.unit(f.module)
+  sp = ix.mod("ttconv.style_properties")
+  named = ix.cls("ttconv.style_properties:NamedColors")
+  rgb_of = {}
+  for name, vexpr in ix.enum_members(named):
+    m = re.fullmatch(r"ColorType\(\((\d+), (\d+), (\d+), (\d+)\)\)", unparse(vexpr))
+    if m:
+      rgb_of[name] = tuple(int(x) for x in m.groups()[:3])
+  tested = set()
+  for n in own_nodes(f.node):
+    if isinstance(n, ast.Compare):
+      for a in ast.walk(n):
+        if isinstance(a, ast.Attribute) and unparse(a.value).endswith("NamedColors") and a.attr in rgb_of:
+          tested.add(rgb_of[a.attr])
+  ctx.floor("DSP-disasm-colors", "colours with a mnemonic", len(tested), 7)
+  producible = {}
+  for name, v in tables["attribute"].items():
+    color = next((x for x in v if isinstance(x, Sym)), None)
+    m = re.fullmatch(r"ColorType\(\((\d+), (\d+), (\d+), (\d+)\)\)", color.text) if color is not None else None
+    if m and int(m.group(4)) != 0:
+      producible.setdefault(tuple(int(x) for x in m.groups()[:3]), []).append(f"SccAttributeCode.{name}")
+  cm = ix.mod(CODES)
+  colmap = ce.ev(cm, ix.toplevel[cm.name]["SCC_COLOR_MAPPING"][2])
+  for bits, v in colmap.items():
+    m = re.fullmatch(r"ColorType\(\((\d+), (\d+), (\d+), (\d+)\)\)", v.text) if isinstance(v, Sym) else None
+    if m:
+      producible.setdefault(tuple(int(x) for x in m.groups()[:3]), []).append(f"SCC_COLOR_MAPPING[{hex(bits)}]")
+  for rgb, srcs in sorted(producible.items()):
+    ctx.check(rgb in tested, "DSP-disasm-colors", f"get_color_disassembly|rgb {rgb}", ctx.where(f.module, f.node), f"{srcs[0]}... has a mnemonic",
+              f"colour {rgb} produced by {', '.join(srcs[:3])} has no mnemonic branch in get_color_disassembly: such words are disassembled without their colour")
+
+
 def run(ctx):
   tables = extract_tables(ctx)
   check_tables(ctx, tables)
@@ -467,4 +546,5 @@ def run(ctx):
   evals = check_fin(ctx)
   n = check_classification(ctx, tables, order, guarded)
   check_disassembly(ctx)
+  check_disassembly_colors(ctx, tables)
   ctx.extra["finite_domain_evaluations"] = evals + n
